@@ -344,6 +344,8 @@ func runC11(c *mon.Ctx) {
 		c11check(c, k, gs, forms, total)
 	})
 
+	encodeAliasing(c, "glyf", c.N(200, 10000), glyfAliasEncoders)
+
 	// exact table sizes around the loca format limits
 	sizes := []int{65530, 65532, 65534, 65536, 65538, 65540, 131066, 131068, 131070, 131072, 131074, 131076, 131078, 140000}
 	c.Stratum("size-boundaries", len(sizes)*4, func(k *mon.Case) {
